@@ -54,6 +54,19 @@ func genC15(tier string, seed uint64, emit func(string)) {
 	if tier == "thorough" {
 		maxLen = 6
 	}
+	// a port disabled in the configuration while the server runs (by the application, or by a client's CONFIG SET): Stop
+	// still closes what Start opened and returns; once the port is restored the next Start serves it again
+	for _, cfg := range []string{"plain", "plain tls"} {
+		ks := []string{"p"}
+		if strings.Contains(cfg, "tls") {
+			ks = []string{"p", "t"}
+		}
+		for _, k := range ks {
+			emit(lifeLine(cfg, []string{"start", "open:p:a", "portoff:" + k, "obs", "stop", "obs", "alive:a", "porton:" + k, "start", "ping:" + k, "obs", "stop", "obs"}))
+			emit(lifeLine(cfg, []string{"start", "open:p:a", "cfgport:a:" + k, "obs", "stop", "obs", "alive:a", "porton:" + k, "start", "ping:" + k, "stop", "obs"}))
+		}
+		emit(lifeLine(cfg, []string{"start", "portoff:p", "portoff:t", "stop", "obs", "porton:p", "porton:t", "restart", "ping:p", "obs", "stop", "obs"}))
+	}
 	calls := []string{"start", "stop", "restart"}
 	for _, cfg := range []string{"plain", "plain tls"} {
 		var rec func(prefix []string)
